@@ -8,7 +8,7 @@ from __future__ import annotations
 
 import ast
 
-from ..core import Rule, AnalysisError, C_LIB, C_EXT
+from ..core import Rule, AnalysisError, C_LIB, C_EXT, norm
 from .. import cfront, clib, cfg as _cfg, pyfront
 
 LIB = C_LIB
@@ -321,6 +321,90 @@ def r2_validate_before_effect_py(repo=None):
     return r
 
 
+def r8_checks_read_the_array_that_is_written(repo=None):
+    """'a rejected call changes nothing' needs the checks to be about the data that would be written: the writer normalises its
+    array arguments first (`arr = self._cast_input_array(arr)`: interleaved I/Q reals become N complex samples, a list becomes an
+    array) and validates the block description against the *normalised* length.  A length taken from the raw argument before the
+    normalisation describes another object (2N reals for N samples): block offsets in [N, 2N) pass, the extension writes the
+    earlier blocks and nothing rejects the call.  Reaching definitions on the CFG of rf_write / rf_write_blocks: for every name
+    handed to the extension call, each read of its size (len(X), X.shape, X.size, X.ndim) anywhere in the method is reached by
+    exactly the definitions that reach the call."""
+    r = Rule("C05.R8", "sizes used in the checks are read from the arrays as they are handed to the extension (same reaching definitions)")
+    m = pyfront.mod("digital_rf_hdf5", repo)
+    n_sites = 0
+    for q, ext_name in (("DigitalRFWriter.rf_write", "_py_rf_write_hdf5.rf_write"), ("DigitalRFWriter.rf_write_blocks", "_py_rf_write_hdf5.rf_block_write")):
+        fn = m.fn(q)
+        g = m.cfg(q)
+        # the node that hands the arrays over: the extension function called in place, or passed to a private wrapper that calls it
+        E = [n for n in g.nodes if n.ast is not None and not isinstance(n.ast, (ast.If, ast.For, ast.While, ast.Try, ast.With)) and any(
+            isinstance(x, ast.Attribute) and pyfront.dotted(x) == ext_name for x in ast.walk(n.ast))]
+        if len(E) != 1:
+            raise AnalysisError("%s: the statement handing the arrays to %s was not found exactly once (%d)" % (q, ext_name, len(E)))
+        E = E[0]
+        call = [c for c in ast.walk(E.ast) if isinstance(c, ast.Call) and (pyfront.call_name(c) == ext_name or any(
+            pyfront.dotted(a) == ext_name for a in c.args))]
+        if not call:
+            raise AnalysisError("%s: call with %s not recognised" % (q, ext_name))
+        handed = [a.id for a in call[0].args if isinstance(a, ast.Name)]
+        params = {a.arg for a in fn.args.args}
+
+        def defs_of(v):
+            out = [n.id for n in g.nodes if n.ast is not None and (
+                (isinstance(n.ast, (ast.Assign, ast.AugAssign, ast.AnnAssign)) and any(
+                    isinstance(x, ast.Name) and x.id == v and isinstance(x.ctx, ast.Store) for t in (
+                        n.ast.targets if isinstance(n.ast, ast.Assign) else [n.ast.target]) for x in ast.walk(t)))
+                or (isinstance(n.ast, ast.For) and any(isinstance(x, ast.Name) and x.id == v for x in ast.walk(n.ast.target))))]
+            return out
+
+        def reaching(v, node_id):
+            ds = defs_of(v)
+            out = set()
+            for d in ds:
+                if node_id in g.reach([b for b, l in g.succ[d] if l != "exc"], avoid=[x for x in ds if x != d]) or False:
+                    out.add(d)
+            if v in params and node_id in g.reach([g.entry.id], avoid=ds):
+                out.add("<parameter>")
+            return out
+        for v in handed:
+            at_call = reaching(v, E.id)
+            for n in g.nodes:
+                if n.ast is None or n.id == E.id:
+                    continue
+                own = list(c08_own(n))
+                reads = [x for x in own if (isinstance(x, ast.Call) and pyfront.call_name(x) == "len" and x.args and isinstance(x.args[0], ast.Name)
+                                            and x.args[0].id == v)
+                         or (isinstance(x, ast.Attribute) and x.attr in ("shape", "size", "ndim") and isinstance(x.value, ast.Name) and x.value.id == v)]
+                for x in reads:
+                    n_sites += 1
+                    here = reaching(v, n.id)
+                    site = "%s:%s %s `%s`" % (m.rel, n.line, q, norm(ast.unparse(x)))
+                    if here == at_call:
+                        r.ok(site, "the size of `%s` as it is handed to the extension" % v)
+                    else:
+                        r.violation(m.rel, q, "%s read at line %s" % (norm(ast.unparse(x)), n.line), "the size is read from `%s` as defined at %s, "
+                                    "the extension receives `%s` as defined at %s: the check describes another object than the one written "
+                                    "(interleaved I/Q reals have twice the length of the samples they become), so a block description "
+                                    "past the end of the data is accepted and partly written" % (
+                                        v, sorted(str(g.nodes[d].line) if d != "<parameter>" else d for d in here), v,
+                                        sorted(str(g.nodes[d].line) if d != "<parameter>" else d for d in at_call)), line=n.line)
+    if n_sites < 3:
+        raise AnalysisError("size reads of the arrays handed to the extension: %d found, 4 confirmed on the reference tree" % n_sites)
+    r.guard(3)
+    return r
+
+
+def c08_own(n):
+    """expression nodes evaluated by CFG node n itself (a compound statement's node stands for its header only)"""
+    a = n.ast
+    if isinstance(a, (ast.If, ast.While)):
+        return ast.walk(a.test)
+    if isinstance(a, ast.For):
+        return ast.walk(a.iter)
+    if isinstance(a, (ast.Try, ast.With, ast.FunctionDef)):
+        return iter(())
+    return ast.walk(a)
+
+
 def r3_extension_reports_rejection(repo=None):
     r = Rule("C05.R3", "the extension turns every non-zero library result into a Python exception")
     tu = cfront.ext(repo)
@@ -588,7 +672,7 @@ def r7_cursor_has_one_owner(repo=None):
 
 
 def rules(repo=None):
-    return [lambda: r7_cursor_has_one_owner(repo), lambda: r5_existing_target_refused_first(repo), lambda: r6_description_always_validated(repo), lambda: r1_validate_before_effect_c(repo), lambda: r2_validate_before_effect_py(repo),
+    return [lambda: r7_cursor_has_one_owner(repo), lambda: r8_checks_read_the_array_that_is_written(repo), lambda: r5_existing_target_refused_first(repo), lambda: r6_description_always_validated(repo), lambda: r1_validate_before_effect_c(repo), lambda: r2_validate_before_effect_py(repo),
             lambda: r3_extension_reports_rejection(repo), lambda: r4_forward_only_guard(repo)]
 
 
@@ -606,8 +690,10 @@ EXPLANATION = (
     'digital_rf_write_blocks_hdf5 to return(0) passes the per-file validation or, for an empty vector, a test of the '
     'offsets array that can end in an error. R7: who-may-store table of the write cursor (global_index): the constructor '
     'and the per-file write step only; a caller that puts the cursor back after a partial write makes written samples '
-    'writable again (C06: the repeated call appends them a second time). Does NOT decide that the predicates are '
-    'arithmetically right.')
+    'writable again (C06: the repeated call appends them a second time). R8: reaching definitions on rf_write / '
+    'rf_write_blocks - every size read (len(X), X.shape, X.size, X.ndim) of an array handed to the extension is reached '
+    'by exactly the definitions that reach the hand-over (a length taken before the input cast describes another object).'
+    ' Does NOT decide that the predicates are arithmetically right.')
 TECHNIQUE = ('clang JSON AST + Python ast; CFG reachability between effects and input-rejection returns; effect summaries over the call tree; dominance')
 ASSUMPTIONS = ["the effect table (clib.EFFECT_CALLS, cursor fields) is complete for this library",
                "gmtime/snprintf/strcmp are effect-free", "clang 14 AST and CPython ast are faithful"]
